@@ -121,6 +121,21 @@ fn run_input(inp: &Input) -> Outcome {
     }
 }
 
+/// Coq literal for a long byte string: coqc overflows its stack on a single numeral of more
+/// than ~3000 bytes, so long strings are written as a sum of shifted 2048-byte numerals
+fn nlit_long(b: &[u8]) -> String {
+    const CH: usize = 2048;
+    if b.len() <= CH {
+        return nlit(b);
+    }
+    let parts: Vec<String> = b
+        .chunks(CH)
+        .enumerate()
+        .map(|(k, c)| if k == 0 { nlit(c) } else { format!("N.shiftl {} {}", nlit(c), 8 * CH * k) })
+        .collect();
+    format!("({})", parts.join(" + "))
+}
+
 /// message contents: random / zero / ones / counting (and the structured kinds of util::Rng::bytes)
 fn content(rng: &mut Rng, kind: usize, n: usize) -> Vec<u8> {
     match kind % 5 {
@@ -152,6 +167,11 @@ fn gen_inputs(rng: &mut Rng, thorough: bool, streams: &str) -> Vec<Input> {
             for (si, &size) in SIZES.iter().enumerate() {
                 let nb = size / 8;
                 if len > 3 * nb + 1 {
+                    continue;
+                }
+                // quick tier: every length up to one block + 1, then the block boundaries and
+                // every fourth length (rotating with the state size) up to three blocks + 1
+                if !thorough && len > nb + 1 && !(len % nb <= 1 || len % nb == nb - 1 || len % 4 == si) {
                     continue;
                 }
                 let reps = if thorough { 3 } else { 1 };
@@ -199,6 +219,20 @@ fn gen_inputs(rng: &mut Rng, thorough: bool, streams: &str) -> Vec<Input> {
             v.push(Input { size, nout, hook: None, msg, split, stream: "long" });
         }
     }
+    if !all {
+        // E: a few complete runs (Default, two updates, finalize) so that configurations which
+        //    otherwise only see entered states also exercise the configuration block, a second
+        //    message block, an exact multiple and more than one output block
+        for (si, &size) in SIZES.iter().enumerate() {
+            let nb = size / 8;
+            for (k, &len) in [0usize, 17, nb, nb + 1, 2 * nb, 3 * nb + 5].iter().enumerate() {
+                let nout = [33usize, 129, 300, 7, 64, 200][(k + si) % 6];
+                let msg = content(rng, k + si, len);
+                let split = split_for(rng, len, nb);
+                v.push(Input { size, nout, hook: None, msg, split, stream: "smoke" });
+            }
+        }
+    }
     // D: states entered through the hook: arbitrary chaining value, tweak position
     //    0 (FIRST set), just below 2^32, 2^40, just below 2^64 (overflow of t.0)
     let mut k = 0usize;
@@ -224,6 +258,10 @@ fn gen_inputs(rng: &mut Rng, thorough: bool, streams: &str) -> Vec<Input> {
                     if !thorough && (k % 3 != 0) {
                         continue;
                     }
+                    // streams = smoke: a ninth of the product
+                    if streams == "smoke" && (k % 9 != 0) {
+                        continue;
+                    }
                     let nout = if k % 4 == 0 { NOUTS[k % 18] } else { [8usize, 32, 33, 64][k % 4] };
                     let hook = Hook { x: rng.bytes(nb), t0, t1, buffered: content(rng, k, nbuf) };
                     let msg = content(rng, k + ti, tail);
@@ -239,7 +277,7 @@ fn gen_inputs(rng: &mut Rng, thorough: bool, streams: &str) -> Vec<Input> {
 fn main() {
     let argv: Vec<String> = std::env::args().collect();
     if argv.len() < 2 || argv[1] != "skein" {
-        eprintln!("usage: h_skein skein [--seed N --shards N --out DIR --tier quick|thorough --streams all|hook --runner run_c05]");
+        eprintln!("usage: h_skein skein [--seed N --shards N --out DIR --tier quick|thorough --streams all|hook|smoke --runner run_c05]");
         std::process::exit(2);
     }
     let a = Args::parse(&argv[2..]);
@@ -289,7 +327,7 @@ fn main() {
             hk.buffered.len(),
             nlit(&hk.buffered),
             inp.msg.len(),
-            nlit(&inp.msg),
+            nlit_long(&inp.msg),
             inp.split,
             o.panicked,
             nlit_u64(o.at0),
